@@ -521,7 +521,7 @@ func (e *Env) trQuant(x *EQuant) TV {
 	for _, b := range x.Vars {
 		if b.Type == "$idx" {
 			// j ranges over the valid indices of a slice: bind the absolute position K, j = K - off
-			sl := e.tr(b.Of)
+			sl := n.tr(b.Of) // may depend on earlier binders
 			if sl.T.Sort != SSlice {
 				trFail("idx(...) needs a slice")
 			}
